@@ -3,5 +3,5 @@ CONSTANTS
   Configs <- SanityConfigs
   CheckVHash = FALSE
 VIEW view
-INVARIANTS TypeOK CodeEqualsDecl AcceptImpliesLinked AcceptImpliesQuorumOfDistinctGoodSigners AcceptImpliesEverySlotVerifies VerifyCommitSound HeightOneEmptyCommit TamperAnyFieldRejected
+INVARIANTS TypeOK CodeEqualsDecl AcceptImpliesLinked AcceptImpliesQuorumOfDistinctGoodSigners AcceptImpliesEverySlotVerifies VerifyCommitSound VerifyCommitEverySlotVerifies HeightOneEmptyCommit TamperAnyFieldRejected
 CHECK_DEADLOCK FALSE
